@@ -187,6 +187,42 @@ pub fn run(ctx: &Ctx) -> CheckResult {
         default_instances(PROP, &[Kind::Ema, Kind::Tr, Kind::Atr, Kind::Macd, Kind::Kc, Kind::Ce], &mut o);
         res.absorb(o);
     }
+    // unvalidated bars (custom High/Low/Close types skip DataItem's checks): inverted
+    // high < low, zero and negative fields - the documented formulas are total
+    if !res.out.failed() {
+        let free = with_reset(b_ops(&b_free()));
+        let dfree = if th { 5 } else { 4 };
+        let mut spaces = vec![Space { cfg: Cfg::p0(Kind::Tr), alphabet: free.clone(), depth: dfree, label: "free bars" }];
+        for &n in &[1usize, 2, 3, 5] {
+            spaces.push(Space { cfg: Cfg::p1(Kind::Atr, n), alphabet: free.clone(), depth: dfree, label: "free bars" });
+            spaces.push(Space { cfg: Cfg::pm(Kind::Kc, n, 2.0), alphabet: free.clone(), depth: dfree, label: "free bars" });
+            spaces.push(Space { cfg: Cfg::pm(Kind::Ce, n, 3.0), alphabet: free.clone(), depth: dfree, label: "free bars" });
+        }
+        res.absorb(run_spaces(ctx, PROP, &spaces));
+    }
+    // LAST (listed findings must not switch off the stages above): prices just below
+    // f64::MAX, compared after exact scaling by 2^-600 (see refcmp::oracle_node_scaled).
+    // KeltnerChannel's typical price (h+l+c)/3 overflows on such bars (listed finding);
+    // everything else is exact there today.
+    if !res.out.failed() {
+        let near_s = with_reset(s_ops(&S_NEARMAX));
+        let near_b = with_reset(b_ops(&b_nearmax()));
+        let dn = if th { 8 } else { 6 };
+        let mut spaces = vec![
+            Space { cfg: Cfg::p0(Kind::Tr), alphabet: near_s.clone(), depth: dn, label: "near-max scalar" },
+            Space { cfg: Cfg::p0(Kind::Tr), alphabet: near_b.clone(), depth: dn, label: "near-max bars" },
+        ];
+        for &n in &[1usize, 2, 3, 5, 14] {
+            spaces.push(Space { cfg: Cfg::p1(Kind::Ema, n), alphabet: near_s.clone(), depth: dn, label: "near-max scalar" });
+            spaces.push(Space { cfg: Cfg::p1(Kind::Atr, n), alphabet: near_s.clone(), depth: dn, label: "near-max scalar" });
+            spaces.push(Space { cfg: Cfg::p1(Kind::Atr, n), alphabet: near_b.clone(), depth: dn, label: "near-max bars" });
+            spaces.push(Space { cfg: Cfg::pm(Kind::Kc, n, 0.5), alphabet: near_s.clone(), depth: dn, label: "near-max scalar" });
+            spaces.push(Space { cfg: Cfg::pm(Kind::Ce, n, 0.5), alphabet: near_b.clone(), depth: dn, label: "near-max bars" });
+            spaces.push(Space { cfg: Cfg::p3(Kind::Macd, n, n + 2, 2), alphabet: near_s.clone(), depth: dn, label: "near-max scalar" });
+            spaces.push(Space { cfg: Cfg::pm(Kind::Kc, n, 0.5), alphabet: near_b.clone(), depth: dn - 1, label: "near-max bars" });
+        }
+        res.absorb(run_spaces(ctx, PROP, &spaces));
+    }
     res.rule = "case = (configuration, operation history) replayed on a fresh real instance; output of the last op compared with the documented recursion/formula evaluated from scratch over the whole history since reset in double-double; non-trivial = history of at least 2 inputs since reset".into();
     res.bounds = format!("seq(S_int+{{7.7,1e6}}+reset, {d}) scalar paths and seq(B_grid+reset, {db}) bar paths for periods {singles:?}, multipliers {mults:?} (side multipliers 1-2 levels shallower), the positive alphabets in a 2^-60 price unit for periods {{1,2,3,5,14}}; streams mixing scalar and bar inputs on one instance for TR/ATR/KC/EMA/MACD; periods 2^32-1, 2^32, 2^32+2, 2^33+9, usize::MAX for EMA/ATR/KC/MACD; multipliers -1 / -2.5 for KC / CE; MACD triples over {{1,2,3,7}}^3 at depth {} plus (12,26,9),(3,1024,2); default streams of {lens} steps with <=1 deviation for periods up to 1024; very long runs (2 x 25k / 2 x 500k steps, all orderings of 2 of 5 regimes, thinned in quick) against an incremental double-double recursion for periods {{1,2,9,14,200}}", d - 2);
     res.assumptions = vec![
